@@ -63,6 +63,14 @@ def knownRejoin : String := "KNOWN:c16-rejoin-session-keys"
 def verdicts (E : BlockCipher) (op : String) (args : List String) (res : Option (List String)) : List (String × String) :=
   if op == "jsconc" then
     (match res with | some ["same"] => [] | _ => [("C16", "concurrent-requests-influence-one-another")])
+  else if op == "jshome" then
+    (match args, res with
+     | [k, _, n, s, r, t], some [_, result, snd, rcv, tx, mt, nid] =>
+       (if snd == "s" ++ sdrop r 1 && rcv == "s" ++ sdrop s 1 && tx == t && mt == "HomeNSAns" then [] else [("C16", "answer-does-not-mirror-sender-receiver-transaction")]) ++
+       (if k == "0" then (if result == "UnknownDevEUI" then [] else [("C16", "unknown-deveui-not-reported")])
+        else (if result == "Success" && nid == n then [] else [("C16", "home-netid-not-returned")]))
+     | _, _ => [])
+  else if op == "jsraw" then []
   else
   match request args, res with
   | some ((q, c), _), some [code, result, sender, receiver, txid, msgType, phyT, k1, k2, k3, k4, k5] =>
